@@ -36,7 +36,7 @@ def run(tier, seed, replay=None):
     except vbuild.BuildError as e:
         ob["ok"] = False
         ob["failures"].append("correspondence harness does not compile against the current source: " + str(e)[-400:])
-        return ck.finish(ob, rule="-")
+        return ck.finish(ob, rule="one fit in three uses --boundaries derivativezero on data sampled from a cubic spline with zero end slopes. -")
     if not ob.get("driver_ok", True):
         return ck.finish(ob, rule="-")
     if False and replay:
